@@ -572,6 +572,9 @@ func (ego *object) GetTF(tf string) any {
 	tf = tf[1:]
 	dot := strings.Index(tf, ".")
 	hash := strings.Index(tf, "#")
+	if dot == 0 || hash == 0 {
+		panic(fmt.Sprintf("'%s' has an empty field name", tf))
+	}
 	if dot > 0 && (hash < 0 || dot < hash) {
 		key := tf[:dot]
 		return ego.Ego().GetObject(key).GetTF(tf[dot:])
@@ -590,6 +593,9 @@ func (ego *object) SetTF(tf string, value any) Object {
 	tf = tf[1:]
 	dot := strings.Index(tf, ".")
 	hash := strings.Index(tf, "#")
+	if dot == 0 || hash == 0 {
+		panic(fmt.Sprintf("'%s' has an empty field name", tf))
+	}
 	if dot > 0 && (hash < 0 || dot < hash) {
 		key := tf[:dot]
 		var object Object
@@ -624,6 +630,9 @@ func (ego *object) UnsetTF(tf string) Object {
 	tf = tf[1:]
 	dot := strings.Index(tf, ".")
 	hash := strings.Index(tf, "#")
+	if dot == 0 || hash == 0 {
+		panic(fmt.Sprintf("'%s' has an empty field name", tf))
+	}
 	if dot > 0 && (hash < 0 || dot < hash) {
 		key := tf[:dot]
 		object := ego.GetObject(key)
@@ -646,6 +655,9 @@ func (ego *object) TypeOfTF(tf string) Type {
 	tf = tf[1:]
 	dot := strings.Index(tf, ".")
 	hash := strings.Index(tf, "#")
+	if dot == 0 || hash == 0 {
+		return TypeUndefined
+	}
 	if dot > 0 && (hash < 0 || dot < hash) {
 		key := tf[:dot]
 		if !ego.ptr.KeyExists(key) || ego.ptr.TypeOf(key) != TypeObject {
